@@ -190,6 +190,18 @@ def grid(ctx, thorough, do_model=True):
                 f = (b"", parts, red, b"")
                 for label, dec in deciders(rng):
                     one(ctx, name, cfg, "line", f, dec, do_model, label)
+    # --js / --attrs files: B counts the reducible text only (a few string characters / attributes); the text around it is
+    # full of property accesses and function definitions that are not Lithium's to rewrite
+    code = b"".join(b"obj%d.prop%d = %d;\n" % (i, i, i) for i in range(40))
+    protected = {"jsstr": b"var first = 'x';\n" + code + b"function p(q, r) { return q.s + r.t; }\np(u.v, w.x);\nvar last = \"y\";\n",
+                 "attrs": b"<div k>\n" + code + b"function h(i){} h(j.k)\n</div>\n<p q>\n"}
+    for name in ("replace-properties-by-globals", "replace-arguments-by-globals"):
+        for kind, data in protected.items():
+            res = loaders.real_load(kind, data)
+            f = strat.fields(res[1])
+            for cfg in (dict(), dict(rep="always")):
+                for label, dec in deciders(rng):
+                    one(ctx, name, cfg, kind, f, dec, False, "protected-text:" + label)
     for name in ("replace-properties-by-globals", "replace-arguments-by-globals"):
         for data in JS:
             for kind in ("line", "char", "symbol"):
